@@ -204,9 +204,11 @@ RunActorT = Obj(
     _set_power_group=GroupT, _set_op_power_group=GroupT,
     _power_distributing_requests_sender=RequestsSenderT,
 )
-UpdatePathT = ExtObj("update path", methods=dict(note=dict(effects={
-    "n_calls": "self.n_calls + 1", "last_proposal_none": "args[1] is None", "last_must_send": "args[2]"})),
-    n_calls=_I, last_proposal_none=Bool, last_must_send=Bool)
+UpdatePathT = ExtObj("update path", methods=dict(
+    note=dict(effects={"n_calls": "self.n_calls + 1", "last_proposal_none": "args[1] is None", "last_must_send": "args[2]"}),
+    # _send_reports: how many recomputations had happened when the latest reports went out
+    report=dict(effects={"n_reports": "self.n_reports + 1", "calls_at_last_report": "self.n_calls"})),
+    n_calls=_I, last_proposal_none=Bool, last_must_send=Bool, n_reports=_I, calls_at_last_report=_I)
 RUN_LOOP = ("async for selected in select( self._proposals_receiver, self._bounds_subscription_receiver, "
             "self._power_distributing_results_receiver, drop_old_proposals_timer, )")
 
@@ -229,7 +231,7 @@ class ActorRun:
         "frequenz.channels.select": "sel", "frequenz.channels.selected_from": "args[0].origin == args[1].tag",
         f"{A}:PowerManagingActor._send_updated_target_power":
             "upd.note(args[1], args[2], kwargs['must_send'] if 'must_send' in kwargs else (args[3] if len(args) > 3 else False))",
-        f"{A}:PowerManagingActor._send_reports": "None",
+        f"{A}:PowerManagingActor._send_reports": "upd.report()",
         f"{A}:PowerManagingActor._add_system_bounds_tracker": "None",
         "asyncio.get_event_loop": "loop",
         f"{A.rsplit('.', 1)[0]}._base_classes:ReportRequest.get_channel_name": "0",
@@ -241,12 +243,14 @@ class ActorRun:
         havoc={"last_result_partial_failure": Bool},
         havoc_fields={"upd.n_calls": _I, "upd.last_proposal_none": Bool, "upd.last_must_send": Bool,
                       "upd.calls": OpaqueT("log"), "upd.results": OpaqueT("log"),
+                      "upd.n_reports": _I, "upd.calls_at_last_report": _I,
                       "self._set_power_group.n_drops": _I, "self._set_op_power_group.n_drops": _I,
                       "self._power_distributing_requests_sender.n_sent": _I,
                       "self._set_power_subscriptions": SubsT, "self._set_op_power_subscriptions": SubsT},
         invariant=dict(distinct_groups="not (self._set_power_group is self._set_op_power_group)"),
         ghost_pre=["pre_sent = self._power_distributing_requests_sender.n_sent", "pre_calls = upd.n_calls",
-                   "pre_partial = last_result_partial_failure", "pre_d1 = self._set_power_group.n_drops",
+                   "pre_partial = last_result_partial_failure", "pre_reports = upd.n_reports",
+                   "pre_d1 = self._set_power_group.n_drops",
                    "pre_d2 = self._set_op_power_group.n_drops"],
         step=dict(
             requests_only_through_the_update_path="self._power_distributing_requests_sender.n_sent == pre_sent",
@@ -256,6 +260,8 @@ class ActorRun:
                                             " upd.n_calls == pre_calls + (0 if pre_partial else 1)"
                                             " and implies(not pre_partial, upd.last_must_send and upd.last_proposal_none)"
                                             " and last_result_partial_failure)",
+            reports_follow_the_recomputation="implies(upd.n_reports > pre_reports and upd.n_calls > pre_calls,"
+                                             " upd.calls_at_last_report == upd.n_calls)",
             other_results_send_nothing="implies(selected.origin == SRC_RESULT and not isinstance(selected.message, PartialFailure),"
                                        " upd.n_calls == pre_calls)",
             subscriptions_send_nothing="implies(selected.origin == SRC_SUBSCRIPTION, upd.n_calls == pre_calls)",
@@ -311,16 +317,20 @@ class BoundsTracker:
     externals = {
         f"{A}:PowerManagingActor._send_updated_target_power":
             "upd.note(args[1], args[2], kwargs['must_send'] if 'must_send' in kwargs else (args[3] if len(args) > 3 else False))",
-        f"{A}:PowerManagingActor._send_reports": "None",
+        f"{A}:PowerManagingActor._send_reports": "upd.report()",
     }
     modifies = ["self._system_bounds", "upd", "bounds_receiver"]
     loops = {"async for bounds in bounds_receiver": dict(
         havoc_fields={"self._system_bounds": DictOpt({CID: SystemBoundsT}), "upd.n_calls": _I, "upd.last_proposal_none": Bool,
-                      "upd.last_must_send": Bool, "upd.calls": OpaqueT("log"), "upd.results": OpaqueT("log")},
+                      "upd.last_must_send": Bool, "upd.calls": OpaqueT("log"), "upd.results": OpaqueT("log"),
+                      "upd.n_reports": _I, "upd.calls_at_last_report": _I},
         invariant=dict(true="True"),
-        ghost_pre=["pre_calls = upd.n_calls"],
+        ghost_pre=["pre_calls = upd.n_calls", "pre_reports = upd.n_reports"],
         step=dict(
             latest_received_bounds_cached="CID in self._system_bounds and self._system_bounds[CID] == bounds",
             request_recomputed_once="upd.n_calls == pre_calls + 1 and upd.last_proposal_none",
+            # "... equals the sum of the targets CURRENTLY REPORTED": the reports of this event go out after the
+            # recomputation, so they carry the targets the request was built from
+            reports_follow_the_recomputation="upd.n_reports == pre_reports + 1 and upd.calls_at_last_report == upd.n_calls",
         ))}
     ensures = dict(stream_ended="True")
